@@ -20,7 +20,7 @@ RULE = ('generated cases against the ASan+UBSan agent (wasi.c) and, for thread-s
         '(thread-spawn) T host threads x K spawns on one instance: returned ids distinct and positive, wasi_thread_start logged '
         'exactly once per spawn with that id and argument through the PARENT memory, negative result when the export is missing. '
         'Non-trivial = args/env with >= 1 empty and >= 1 > 4 KiB string, a random_get length > 256 that is not a multiple of 256, '
-        '>= 8 concurrent spawns, an invalid clock id; distinct by case.')
+        '>= 8 concurrent spawns, an invalid clock id; distinct by case. clock_res_get: the value equals clock_getres of the same host clock read in the same process, exactly 8 bytes are stored, unknown ids are EINVAL.')
 ASSUME = ['a random_get block of 64 bytes keeps the canary value with probability 256^-64',
           'thread-spawn is exercised with real threads (schedules are not owned by the harness here)']
 
